@@ -321,6 +321,9 @@ let warnings_str (st : pstate) : String.t =
   let ws = List.rev st.p_warnings in
   Printf.sprintf "nw=%d w=[%s]" (List.length ws) (String.concat ";" (List.map perror_str ws))
 
+(* switched to `Some knownb` by build_xmlk.sh (C01 variant): the recorded-classes predicate of Xml/RoundTripCanon.v on the loaded tree *)
+let knownb_hook : (tables -> etree -> bool) option = None (* KNOWNB-HOOK *)
+
 type outcome_line = { line : String.t; site : String.t; dump : String.t; ser : String.t option }
 
 (* one observation: load + check_arxml_header + serialize + reload + reserialize *)
@@ -337,7 +340,8 @@ let observe (e : env) (strict : bool) (input : String.t) (with_rt : bool) : outc
     if overlap root st then { line = "ERR overlap chk=" ^ chk; site = ""; dump = ""; ser = None } else
     let (d, ne) = dump_loaded e root st in
     let head = Printf.sprintf "OK t=%016Lx ne=%d %s chk=%s" (fnv d) ne (warnings_str st) chk in
-    if not with_rt then { line = head; site = ""; dump = d; ser = None } else
+    let kn = match knownb_hook with Some f -> if f e.t root then "kn=1" else "kn=0" | None -> "" in
+    if not with_rt then { line = head; site = kn; dump = d; ser = None } else
     match serialize_file e.t e.tel e.tat e.ten e.check_fn float_fmt st.p_version st.p_standalone root with
     | Pan s -> { line = head ^ " ser=PANIC"; site = coqstr s; dump = d; ser = None }
     | Fuel -> { line = head ^ " ser=FUEL"; site = ""; dump = d; ser = None }
@@ -354,7 +358,7 @@ let observe (e : env) (strict : bool) (input : String.t) (with_rt : bool) : outc
           let s2 = match serialize_file e.t e.tel e.tat e.ten e.check_fn float_fmt st2.p_version st2.p_standalone root2 with
             | Val t2 -> Printf.sprintf "%016Lx" (fnv (string_of_bytes t2)) | Pan _ -> "PANIC" | Fuel -> "FUEL" in
           Printf.sprintf "rt=%016Lx/%d/%s" (fnv d2) (List.length st2.p_warnings) s2 in
-      { line = Printf.sprintf "%s ser=%016Lx %s" head (fnv txt) rt; site = ""; dump = d; ser = Some txt }
+      { line = Printf.sprintf "%s ser=%016Lx %s" head (fnv txt) rt; site = kn; dump = d; ser = Some txt }
 
 (* ---------- output modes ---------- *)
 type sink = { mutable blk : int64; mutable blk_n : int; mutable blk_idx : int; blksize : int;
